@@ -90,7 +90,6 @@ SCALAR_GETTERS = [
     ("ncvar", lambda x: x.nc_get_variable(None)),
     ("ncdim", lambda x: x.nc_get_dimension(None)),
     ("unlim", lambda x: x.nc_is_unlimited()),
-    ("ext", lambda x: x.nc_get_external()),
     ("size", lambda x: x.get_size(None)),
     ("method", lambda x: x.get_method(None)),
     ("axes", lambda x: x.get_axes(None)),
@@ -192,7 +191,9 @@ def mk_data(spec):
     elif kind.startswith("f"):
         vals = np.array([(start + i) * 0.5 - 1 for i in range(n)], dtype=kind)
     else:
-        vals = np.array([start + i for i in range(n)], dtype=kind)
+        vals = np.array([(start + i) % 100 for i in range(n)], dtype=kind)
+    if spec.get("inf") and kind.startswith("f") and n:
+        vals[0] = np.inf
     vals = vals.reshape(shape)
     m = spec.get("mask")
     if m:
@@ -243,7 +244,10 @@ def mk_construct(spec):
     if spec.get("geometry") is not None:
         c.set_geometry(spec["geometry"])
     if spec.get("clim"):
-        c.set_climatology(True)
+        try:
+            c.set_climatology(True)
+        except ValueError:
+            pass  # only reference-time coordinates can be climatological
     if spec.get("cell") is not None:
         c.set_cell(spec["cell"])
     if spec.get("conn") is not None:
@@ -393,6 +397,8 @@ def apply_mod(f, m, scratch):
         f.nc_set_global_attributes(m[1])
     elif op == "squeeze":
         f.squeeze(inplace=True)
+    elif op == "compress":
+        return f.compress(m[1])
     elif op == "subspace0":
         # first element along every axis: size-1 data everywhere
         return f[tuple([0] * f.ndim)]
@@ -501,7 +507,10 @@ def abs_var(x):
     if nc is not None:
         head.append(a1("nc_set_variable", nc))
     d = x.get_data(None) if hasattr(x, "get_data") else None
-    return {"cls": type(x).__name__, "head": head, "data": None if d is None else dtok(d)}
+    tail = []
+    if isinstance(x, cfdm.Bounds) and x.nc_get_dimension(None) is not None:
+        tail.append(a1("nc_set_dimension", x.nc_get_dimension()))
+    return {"cls": type(x).__name__, "head": head, "data": None if d is None else dtok(d), "tail": tail}
 
 
 def abs_con(x):
@@ -814,6 +823,7 @@ def parse_str(txt):
         if sec is None:
             continue
         head = body.split(" = ", 1)[0]
+        head = re.sub(r"\s*\(external variable[^)]*\)\s*$", "", head)
         if sec == "data":
             # 'ident(ax, ax) units'
             out.append([sec] + parse_header(head))
@@ -833,7 +843,7 @@ def parse_dump(txt):
     for ln in txt.split("\n"):
         m = re.match(r"^\s*([A-Z][A-Za-z ]+?): (.*)$", ln)
         if m and m.group(1) in TITLES:
-            cur = [TITLES[m.group(1)], m.group(2), None, None]
+            cur = [TITLES[m.group(1)], re.sub(r"\s*\(external variable[^)]*\)\s*$", "", m.group(2)), None, None]
             out.append(cur)
             if cur[0] == "axis":
                 cur = None
